@@ -71,6 +71,13 @@ Reserved(abi) ==
   CASE abi = "arm64" -> {"x16", "x17", "x18", "x29", "x30"}
     [] abi = "mips32" -> {"t8", "t9", "k0", "k1", "at", "zero", "gp", "sp", "fp", "ra"}
     [] OTHER -> {}
+\* registers that may be handed out as scratch registers (psABI: x86 general
+\* purpose registers other than the stack / frame pointer; AArch64 x0-x15,
+\* x19-x28 (x16/x17 intra-procedure-call, x18 platform, x29 fp, x30 lr are
+\* reserved); MIPS o32: the temporaries $t0-$t7 ($t8/$t9 serve the assembler
+\* and the PIC call sequence, $a/$s/$v carry arguments, saved values, results))
+Candidates(abi) == IF abi = "mips32" THEN {MipsRegs[i] : i \in 1..8}
+                   ELSE SeqToSet(AllRegs(abi)) \ (Reserved(abi) \cup {SpName(abi)})
 \* stack pointer values modulo 16 that can occur at an insertion point
 StartAligns(abi) == CASE IsX64(abi) -> {0, 8} [] abi = "ia32pe" -> {0, 4, 8, 12}
                       [] abi = "arm64" -> {0} [] OTHER -> {0, 4}
@@ -316,7 +323,7 @@ ScratchOK(abi, scratch, requested, reads) ==
        /\ scratch[i] \notin reads
        /\ scratch[i] # SpName(abi)
        /\ scratch[i] \notin Reserved(abi)
-       /\ scratch[i] \in SeqToSet(AllRegs(abi))
+       /\ scratch[i] \in Candidates(abi)
 
 (***************************************************************************)
 (* The properties at a call (C17); c is the snapshot taken by "call".      *)
